@@ -273,6 +273,7 @@ func Build(opt Options) (*Report, error) {
 			// R7: the communication of a select case is handled with its select statement, not on its own
 			inComm := map[ast.Node]bool{}
 			twoValue := map[ast.Node]bool{} // receive expressions whose second result is used
+			selStart := map[*ast.SelectStmt]token.Pos{} // where the outermost label of a labelled select starts
 			ast.Inspect(d, func(n ast.Node) bool {
 				switch x := n.(type) {
 				case *ast.CommClause:
@@ -284,6 +285,22 @@ func Build(opt Options) (*Report, error) {
 							}
 							return true
 						})
+					}
+				case *ast.LabeledStmt:
+					// a select that carries labels of its own: the label of the rewrite goes in front of them,
+					// so that "break <label>" still names the select statement itself
+					var inner ast.Stmt = x
+					for {
+						ls, ok := inner.(*ast.LabeledStmt)
+						if !ok {
+							break
+						}
+						inner = ls.Stmt
+					}
+					if sel, ok := inner.(*ast.SelectStmt); ok {
+						if _, seen := selStart[sel]; !seen {
+							selStart[sel] = x.Pos()
+						}
 					}
 				case *ast.AssignStmt:
 					if len(x.Lhs) == 2 && len(x.Rhs) == 1 {
@@ -333,7 +350,11 @@ func Build(opt Options) (*Report, error) {
 					}
 					if !hasDefault && len(x.Body.List) > 0 && !skipR7 {
 						selN++
-						edits = append(edits, edit{off(x.Select), 0, fmt.Sprintf("verifSel%d: ", selN)},
+						at := x.Select
+						if p, ok := selStart[x]; ok {
+							at = p
+						}
+						edits = append(edits, edit{off(at), 0, fmt.Sprintf("verifSel%d: ", selN)},
 							edit{off(x.Body.Rbrace), 0, fmt.Sprintf("default: verifSelectBlocked(); goto verifSel%d\n", selN)})
 						r7("select", x.Pos())
 					}
